@@ -104,6 +104,13 @@ Definition early (p : ppc) : bool :=
   | CLocked | CChecked => true
   | _ => false
   end.
+(* between storing the batch and marking it applied (the owner has not run LMarked yet) *)
+Definition unmarked (p : ppc) : bool :=
+  match p with
+  | CEnqStored | CEnqDone | CEnqueued | CWalFailed | CApplying _ | CArenaFull | CRotated | CWokeMem
+  | CApplyFailed => true
+  | _ => false
+  end.
 Definition pub_pos (p : ppc) : option nat :=
   match p with
   | CDeqOwned p | CVisTop p | CVisLoaded p _ | CVisDone p | CPubHold p => Some p
@@ -125,7 +132,7 @@ Record thr_inv (c : cfg) (v : nat) (s : plstate) (i : nat) (t : thr) : Prop := {
   ti_early : early (t_pc t) = true -> t_my t = None;
   ti_my_lt : forall p, t_my t = Some p -> p < length (qlog s);
   ti_my : forall p b, t_my t = Some p -> nth_error (qlog s) p = Some b ->
-     b_seq b = t_seq t /\ b_cnt b = t_cnt t /\ (t_err t = false -> b_fail b = false);
+     b_seq b = t_seq t /\ b_cnt b = t_cnt t;
   ti_applying : forall x p b, t_pc t = CApplying x -> t_my t = Some p -> nth_error (qlog s) p = Some b ->
      t_i t <= b_ins b;
   ti_applied : forall p b, t_pc t = CApplied -> t_my t = Some p -> nth_error (qlog s) p = Some b ->
@@ -142,9 +149,10 @@ Record thr_inv (c : cfg) (v : nat) (s : plstate) (i : nat) (t : thr) : Prop := {
   ti_pub : forall p, pub_pos (t_pc t) = Some p -> p < qtail s;
   ti_visloaded : forall p cur, t_pc t = CVisLoaded p cur -> cur <= visible s;
   ti_visdone : forall p b, t_pc t = CVisDone p -> nth_error (qlog s) p = Some b -> b_last b <= visible s;
-  ti_wait : t_pc t = CWaitDone -> t_err t = false;
+  ti_unmarked : forall p b, unmarked (t_pc t) = true -> t_my t = Some p -> nth_error (qlog s) p = Some b ->
+     b_applied b = false;
   ti_retok : t_pc t = CReturned ResOk ->
-     t_err t = false /\ exists p b, t_my t = Some p /\ nth_error (qlog s) p = Some b /\ b_last b <= visible s;
+     exists p b, t_my t = Some p /\ nth_error (qlog s) p = Some b /\ b_last b <= visible s /\ b_fail b = false;
 }.
 
 Record batch_inv (v : nat) (s : plstate) (p : nat) (b : pbatch) : Prop := {
@@ -155,7 +163,7 @@ Record batch_inv (v : nat) (s : plstate) (p : nat) (b : pbatch) : Prop := {
   bi_applied : b_applied b = true -> b_fail b = true \/ b_ins b = b_cnt b;
   bi_deq : p < qtail s -> b_applied b = true;
   bi_qref : b_qref b = false -> p < qtail s;
-  bi_res : b_res b = Some true -> b_last b <= visible s;
+  bi_res : b_res b = Some true -> b_last b <= visible s /\ b_fail b = false /\ b_applied b = true;
 }.
 
 Record Inv (c : cfg) (v : nat) (s : plstate) : Prop := {
@@ -256,8 +264,8 @@ Proof.
     destruct (sr_log _ _ _ _ _ R _ _ Hb) as (b' & Hb' & _). eapply nth_error_lt; eauto.
   - intros p b' Hp Hb'. pose proof (ti_my_lt _ _ _ _ _ Tj _ Hp) as Hlt.
     destruct (sr_pre _ _ _ _ _ _ _ R Hlt Hb') as (b & Hb & Hm & [Hs|Ho]); [|exfalso; eauto].
-    destruct (ti_my _ _ _ _ _ Tj _ _ Hp Hb) as (H1 & H2 & H3).
-    destruct Hm as (-> & -> & _). destruct Hs as (_ & _ & ->). auto.
+    destruct (ti_my _ _ _ _ _ Tj _ _ Hp Hb) as (H1 & H2).
+    destruct Hm as (-> & -> & _). auto.
   - intros x p b' E Hp Hb'. pose proof (ti_my_lt _ _ _ _ _ Tj _ Hp) as Hlt.
     destruct (sr_pre _ _ _ _ _ _ _ R Hlt Hb') as (b & Hb & Hm & _).
     pose proof (ti_applying _ _ _ _ _ Tj _ _ _ E Hp Hb). destruct Hm as (_ & _ & ? & _). lia.
@@ -286,10 +294,14 @@ Proof.
     assert (Hlt : p < length (qlog s)) by lia.
     destruct (sr_pre _ _ _ _ _ _ _ R Hlt Hb') as (b & Hb & Hm & _).
     rewrite (bmono_last _ _ Hm). pose proof (ti_visdone _ _ _ _ _ Tj _ _ E Hb). lia.
-  - apply (ti_wait _ _ _ _ _ Tj).
-  - intros E. destruct (ti_retok _ _ _ _ _ Tj E) as (H1 & p & b & Hp & Hb & Hl). split; [assumption|].
-    destruct (sr_log _ _ _ _ _ R _ _ Hb) as (b' & Hb' & Hm & _).
-    exists p, b'. repeat split; try assumption. rewrite (bmono_last _ _ Hm). lia.
+  - intros p b' U Hp Hb'. pose proof (ti_my_lt _ _ _ _ _ Tj _ Hp) as Hlt.
+    destruct (sr_pre _ _ _ _ _ _ _ R Hlt Hb') as (b & Hb & Hm & [Hs|Ho]); [|exfalso; eauto].
+    pose proof (ti_unmarked _ _ _ _ _ Tj _ _ U Hp Hb). destruct Hs as (_ & -> & _). assumption.
+  - intros E. destruct (ti_retok _ _ _ _ _ Tj E) as (p & b & Hp & Hb & Hl & Hf).
+    destruct (sr_log _ _ _ _ _ R _ _ Hb) as (b' & Hb' & Hm & [Hs|Ho]); [|exfalso; eauto].
+    exists p, b'. repeat split; try assumption.
+    + rewrite (bmono_last _ _ Hm). lia.
+    + destruct Hs as (_ & _ & ->). assumption.
 Qed.
 
 Definition sorted_log_prop (l : list pbatch) : Prop :=
@@ -380,7 +392,7 @@ Proof.
   intros v s s' p b [] Hn Ht Hv. constructor; try assumption; try lia.
   - rewrite Ht. assumption.
   - rewrite Ht. assumption.
-  - intros Hr. specialize (bi_res0 Hr). lia.
+  - intros Hr. destruct (bi_res0 Hr) as (? & ? & ?). repeat split; auto. lia.
 Qed.
 
 Lemma boundary_frame : forall v s s' h,
@@ -486,7 +498,7 @@ Proof.
   - intros p b Hb. rewrite Eql in Hb. destruct (i_batch _ _ _ HI _ _ Hb). constructor; try assumption; try lia.
     + eauto.
     + intros Hq. specialize (bi_qref0 Hq). lia.
-    + intros Hr. specialize (bi_res0 Hr). lia.
+    + intros Hr. destruct (bi_res0 Hr) as (? & ? & ?). repeat split; auto. lia.
 Qed.
 
 (* ------------------------------------------------------------------ the transitions, one by one *)
@@ -656,6 +668,9 @@ Proof.
     + injection H as <-. apply nth_error_snoc_inv in H0. destruct H0 as [H0|(_ & ->)].
       * apply nth_error_lt in H0. lia.
       * simpl. auto.
+    + match goal with Hm : Some _ = Some _, Hn : nth_error (_ ++ _) _ = Some _ |- _ =>
+        injection Hm as <-; apply nth_error_snoc_inv in Hn; destruct Hn as [Hn|(_ & ->)];
+        [apply nth_error_lt in Hn; lia|reflexivity] end.
   - simpl. intros p Hp. injection Hp as <-. right. lia.
   - simpl. intros; discriminate.
   - simpl. assumption.
@@ -684,35 +699,34 @@ Proof.
 Qed.
 
 (* the owner updates its own batch *)
-Lemma inv_LFailCompleted : forall c v s i t p b pc', Inv c v s -> nth_error (thrs s) i = Some t ->
-  my_batch s t = Some (p, b) ->
-  (t_pc t = CWalFailed /\ pc' = CFailDoneLocked) \/ (t_pc t = CApplyFailed /\ pc' = CFailDone) ->
-  Inv c v (put_thr (put_b s p (set_fail (complete b false))) i (with_err (with_pc t pc') true)).
-Proof.
-  intros c v s i t p b pc' HI Ht Hmb Hpc. pose proof (i_thr _ _ _ HI _ _ Ht) as Ti.
-  destruct (my_batch_inv _ _ _ _ Hmb) as (Hmy & Hb).
-  pose proof (i_batch _ _ _ HI _ _ Hb) as Bi.
-  apply (inv_put_b c v s _ i t (with_err (with_pc t pc') true) p b (set_fail (complete b false)) HI Ht);
-    simpl; try reflexivity; auto.
-  - left; reflexivity.
-  - unfold bmono; simpl. repeat split; auto.
-  - destruct Bi as [B1 B2 B3 B4 B5 B6 B7 B8]. constructor; simpl; auto.
-    intros Hr. apply B8. destruct (b_res b) as [[|]|]; auto; discriminate.
-  - destruct Hpc as [(E0 & ->)|(E0 & ->)]; self_inv0 Ti E0.
-    all: try (rewrite Hmy in *; match goal with H : Some _ = Some _ |- _ => injection H as <- end).
-    all: try (rewrite nth_error_set_nth_eq in * by (eapply nth_error_lt; eauto)).
-    all: try (match goal with H : Some _ = Some _ |- _ => injection H as <- end); simpl.
-    all: try solve [rewrite length_set_nth; eauto].
-    all: try solve [destruct (Ti7 _ _ eq_refl Hb) as (? & ? & ?); repeat split; auto; discriminate].
-    all: auto.
-  - destruct Hpc as [(E0 & ->)|(E0 & ->)]; simpl; intros; discriminate.
-Qed.
-
 Ltac own_batch Hmy Hb :=
   try (rewrite Hmy in *; match goal with H : Some _ = Some _ |- _ => injection H as <- end);
   try (rewrite nth_error_set_nth_eq in * by (eapply nth_error_lt; eauto));
   try (match goal with H : Some _ = Some _ |- _ => injection H as <- end); simpl;
   try solve [rewrite length_set_nth; eauto].
+
+Lemma inv_LFailCompleted : forall c v s i t p b pc', Inv c v s -> nth_error (thrs s) i = Some t ->
+  my_batch s t = Some (p, b) ->
+  (t_pc t = CWalFailed /\ pc' = CFailDoneLocked) \/ (t_pc t = CApplyFailed /\ pc' = CFailDone) ->
+  Inv c v (put_thr (put_b s p (set_fail b)) i (with_pc t pc')).
+Proof.
+  intros c v s i t p b pc' HI Ht Hmb Hpc. pose proof (i_thr _ _ _ HI _ _ Ht) as Ti.
+  destruct (my_batch_inv _ _ _ _ Hmb) as (Hmy & Hb).
+  pose proof (i_batch _ _ _ HI _ _ Hb) as Bi.
+  assert (Hna : b_applied b = false).
+  { apply (ti_unmarked _ _ _ _ _ Ti p b); auto.
+    destruct Hpc as [(E0 & _)|(E0 & _)]; rewrite E0; reflexivity. }
+  apply (inv_put_b c v s _ i t (with_pc t pc') p b (set_fail b) HI Ht);
+    simpl; try reflexivity; auto.
+  - left; reflexivity.
+  - unfold bmono; simpl. repeat split; auto.
+  - destruct Bi as [B1 B2 B3 B4 B5 B6 B7 B8]. constructor; simpl; auto.
+    intros Hr. destruct (B8 Hr) as (_ & _ & Ha). congruence.
+  - destruct Hpc as [(E0 & ->)|(E0 & ->)]; self_inv0 Ti E0; own_batch Hmy Hb.
+    all: try solve [rewrite length_set_nth; eauto].
+    all: eauto.
+  - destruct Hpc as [(E0 & ->)|(E0 & ->)]; simpl; intros; discriminate.
+Qed.
 
 Lemma inv_LMarked : forall c v s i t p b pc', Inv c v s -> nth_error (thrs s) i = Some t ->
   my_batch s t = Some (p, b) ->
@@ -728,10 +742,11 @@ Proof.
   - left; reflexivity.
   - unfold bmono; simpl. repeat split; auto.
   - destruct Bi as [B1 B2 B3 B4 B5 B6 B7 B8]. constructor; simpl; auto.
-    intros _. destruct Hpc as [(E0 & _)|[(E0 & _)|(E0 & _)]].
-    + left. eapply (ti_failed _ _ _ _ _ Ti); eauto.
-    + right. eapply (ti_applied _ _ _ _ _ Ti); eauto.
-    + left. eapply (ti_failed _ _ _ _ _ Ti); eauto.
+    + intros _. destruct Hpc as [(E0 & _)|[(E0 & _)|(E0 & _)]].
+      * left. eapply (ti_failed _ _ _ _ _ Ti); eauto.
+      * right. eapply (ti_applied _ _ _ _ _ Ti); eauto.
+      * left. eapply (ti_failed _ _ _ _ _ Ti); eauto.
+    + intros Hr. destruct (B8 Hr) as (? & ? & ?). auto.
   - destruct Hpc as [(E0 & ->)|[(E0 & ->)|(E0 & ->)]]; self_inv0 Ti E0; own_batch Hmy Hb.
     all: try solve [rewrite length_set_nth; eauto].
     all: eauto.
@@ -745,7 +760,7 @@ Proof.
   intros c v s i t p b x g HI Ht Hmb E0 Hlt. pose proof (i_thr _ _ _ HI _ _ Ht) as Ti.
   destruct (my_batch_inv _ _ _ _ Hmb) as (Hmy & Hb).
   pose proof (i_batch _ _ _ HI _ _ Hb) as Bi.
-  destruct (ti_my _ _ _ _ _ Ti _ _ Hmy Hb) as (Hseq & Hcnt & Hfl).
+  destruct (ti_my _ _ _ _ _ Ti _ _ Hmy Hb) as (Hseq & Hcnt).
   apply (inv_put_b c v s _ i t (with_i t (S (t_i t))) p b (set_ins b (Nat.max (b_ins b) (S (t_i t)))) HI Ht);
     simpl; try reflexivity; auto.
   - left; reflexivity.
@@ -784,18 +799,20 @@ Qed.
 
 Lemma inv_LPubCompleted : forall c v s i t q b, Inv c v s -> nth_error (thrs s) i = Some t ->
   t_pc t = CVisDone q -> get_b s q = Some b ->
-  Inv c v (put_thr (put_b s q (complete b true)) i (with_pc t (CPubHold q))).
+  Inv c v (put_thr (put_b s q (complete b (negb (b_fail b)))) i (with_pc t (CPubHold q))).
 Proof.
   intros c v s i t q b HI Ht E0 Hb. pose proof (i_thr _ _ _ HI _ _ Ht) as Ti.
   unfold get_b in Hb. pose proof (i_batch _ _ _ HI _ _ Hb) as Bi.
   assert (Hq : q < qtail s) by (apply (ti_pub _ _ _ _ _ Ti); rewrite E0; reflexivity).
   pose proof (ti_visdone _ _ _ _ _ Ti _ _ E0 Hb) as Hvis.
-  apply (inv_put_b c v s _ i t (with_pc t (CPubHold q)) q b (complete b true) HI Ht);
+  apply (inv_put_b c v s _ i t (with_pc t (CPubHold q)) q b (complete b (negb (b_fail b))) HI Ht);
     simpl; try reflexivity; auto.
   - left; reflexivity.
   - unfold bmono; simpl. repeat split; auto.
   - left. unfold bsame; simpl; auto.
   - destruct Bi as [B1 B2 B3 B4 B5 B6 B7 B8]. constructor; simpl; auto.
+    intros Hr. destruct (b_res b) as [[|]|]; [auto|discriminate|].
+    injection Hr as Hr. apply negb_true_iff in Hr. auto.
   - self_inv0 Ti E0.
     all: try solve [rewrite length_set_nth; eauto].
     all: try (match goal with H : nth_error (set_nth _ _ _) _ = Some _ |- _ =>
@@ -829,7 +846,7 @@ Proof. unfold my_batch, get_b. intros s1 s t ->. reflexivity. Qed.
 
 Lemma inv_do_return : forall c v s s0 i t r, Inv c v s -> nth_error (thrs s) i = Some t ->
   (s0 = s \/ (s0 = st_mutex s None /\ locked (t_pc t) = true /\ t_pc t <> CEnqStored)) ->
-  (r = ResOk -> t_err t = false /\ exists p b, my_batch s t = Some (p, b) /\ b_res b = Some true) ->
+  (r = ResOk -> exists p b, my_batch s t = Some (p, b) /\ b_res b = Some true) ->
   Inv c v (do_return s0 i t r).
 Proof.
   intros c v s s0 i t r HI Ht Hs0 Hok. pose proof (i_thr _ _ _ HI _ _ Ht) as Ti.
@@ -859,18 +876,18 @@ Proof.
         try (match goal with H : _ = _ \/ _ = _ |- _ => destruct H; discriminate end).
       * rewrite Eql, length_set_nth. auto.
       * rewrite Eql in *. destruct (log_put_pre _ _ _ _ _ _ Hb H0) as [(-> & ->)|(? & ?)]; simpl; eauto.
-      * injection H as ->. destruct (Hok eq_refl) as (He & p' & b' & Hmb' & Hres). split; [assumption|].
+      * injection H as ->. destruct (Hok eq_refl) as (p' & b' & Hmb' & Hres).
         injection Hmb' as <- <-.
         exists p, (drop_oref b). split; [assumption|]. rewrite Eql, Evis.
         split; [apply nth_error_set_nth_eq; eapply nth_error_lt; eauto|].
-        destruct Bi as [B1 B2 B3 B4 B5 B6 B7 B8]. apply B8. assumption.
+        destruct Bi as [B1 B2 B3 B4 B5 B6 B7 B8]. destruct (B8 Hres) as (? & ? & ?). split; assumption.
   - apply (inv_thr_only c v s _ i t t' HI Ht); simpl; try assumption; try congruence.
     + destruct Ti as [Ti1 Ti2 Ti3 Ti4 Ti5 Ti6 Ti7 Ti8 Ti9 Ti10 Ti11 Ti12 Ti13 Ti14 Ti15 Ti16 Ti17 Ti18 Ti19].
       constructor; simpl; intros; try discriminate;
         try (match goal with H : _ = _ \/ _ = _ |- _ => destruct H; discriminate end).
       * rewrite Eql. auto.
       * rewrite Eql in *. eauto.
-      * injection H as ->. destruct (Hok eq_refl) as (He & p' & b' & Hmb' & Hres). congruence.
+      * injection H as ->. destruct (Hok eq_refl) as (p' & b' & Hmb' & Hres). congruence.
 Qed.
 
 Ltac thr_only_start HI Ht t' :=
@@ -888,7 +905,7 @@ Proof.
   thr_only_start HI Ht (with_pc t CApplied).
   self_inv0 Ti E0.
   destruct (i_batch _ _ _ HI _ _ H1) as [B1 B2 B3 B4 B5 B6 B7 B8].
-  destruct (Ti7 _ _ H0 H1) as (_ & Hc & _). specialize (Ti8 _ _ _ eq_refl H0 H1). lia.
+  destruct (Ti7 _ _ H0 H1) as (_ & Hc). specialize (Ti8 _ _ _ eq_refl H0 H1). lia.
 Qed.
 
 Lemma inv_LDeqLoaded_top : forall c v s i t, Inv c v s -> nth_error (thrs s) i = Some t ->
@@ -1006,15 +1023,10 @@ Proof.
   all: match goal with Hpc : t_pc _ = _ |- _ => rename Hpc into Epc end.
   all: try solve [thr_only_auto HI Ht Ti Epc].
   all: try solve [thr_only_auto HI Ht Ti Epc; (congruence || lia)].
-  - (* LRet ResOk *)
-    eapply inv_do_return; eauto. intros _. split; [apply (ti_wait _ _ _ _ _ Ti Epc)|eauto].
-  - eapply inv_do_return; eauto. intros; discriminate.
-  - eapply inv_do_return; eauto. intros; discriminate.
-  - eapply inv_do_return; eauto; [|intros; discriminate].
-    right. rewrite Epc. split; [reflexivity|]. split; [reflexivity|discriminate].
-  - eapply inv_do_return; eauto. intros; discriminate.
-  - eapply inv_do_return; eauto; [|intros; discriminate].
-    right. rewrite Epc. split; [reflexivity|]. split; [reflexivity|discriminate].
+  all: try solve [eapply inv_do_return; eauto; intros; discriminate].
+  all: try solve [eapply inv_do_return; eauto;
+                  [ right; rewrite Epc; split; [reflexivity|]; split; [reflexivity|discriminate]
+                  | intros; discriminate ]].
 Qed.
 
 (* the invariant only reads thrs, rdrs, qlog, qhead, qtail, slotv, visible, next_seq, mutex *)
@@ -1176,9 +1188,8 @@ Theorem return_after_visible : return_after_visible_stmt.
 Proof.
   intros c n m v s i t _ HR Ht Epc. apply reachable_Inv in HR.
   pose proof (i_thr _ _ _ HR _ _ Ht) as Ti.
-  destruct (ti_retok _ _ _ _ _ Ti Epc) as (He & p & b & Hmy & Hb & Hl).
-  exists p, b. repeat split; try assumption.
-  destruct (ti_my _ _ _ _ _ Ti _ _ Hmy Hb) as (_ & _ & Hf). auto.
+  destruct (ti_retok _ _ _ _ _ Ti Epc) as (p & b & Hmy & Hb & Hl & Hf).
+  exists p, b. repeat split; assumption.
 Qed.
 
 Lemma read_aon : forall c v s h p b, Inv c v s -> boundary v s h ->
@@ -1322,9 +1333,8 @@ Proof.
   assert (HI1 : Inv c v s1) by (eapply prun_Inv; [apply Inv_init|eassumption]).
   assert (HI2 : Inv c v s2) by (eapply prun_Inv; eassumption).
   pose proof (i_thr _ _ _ HI1 _ _ Ht) as Ti.
-  destruct (ti_retok _ _ _ _ _ Ti Epc) as (He & p' & b1 & Hmy' & Hb1 & Hl).
+  destruct (ti_retok _ _ _ _ _ Ti Epc) as (p' & b1 & Hmy' & Hb1 & Hl & Hf).
   rewrite Hmy in Hmy'. injection Hmy' as <-.
-  destruct (ti_my _ _ _ _ _ Ti _ _ Hmy Hb1) as (_ & _ & Hf). specialize (Hf He).
   destruct (boundary_cases _ _ _ _ _ _ HI1 (i_boundary _ _ _ HI1) Hb1) as [(_ & Hp)|Hlt].
   2:{ pose proof (seq_le_last _ (bi_cnt _ _ _ _ (i_batch _ _ _ HI1 _ _ Hb1))). lia. }
   destruct (applied_below _ _ _ _ _ HI1 Hb1 Hp) as (_ & Hins). specialize (Hins Hf).
